@@ -136,3 +136,33 @@ pub fn wait_parked(timeout: Duration) -> bool {
     }
     true
 }
+
+/// Abstract composition of a poll batch: which kinds of sources were ready, in order
+/// (channel tokens collapse to "ch", repeated kinds are kept so [ch, ch, stream] differs
+/// from [ch, stream]).
+pub fn batch_shape(tokens: &[usize]) -> String {
+    let mut v: Vec<&str> = Vec::new();
+    for t in tokens {
+        v.push(match *t {
+            65536 => "stream",
+            65537 => "timer",
+            65538 => "alloc",
+            65539 => "setblocked",
+            0 => "ch0",
+            _ => "ch",
+        });
+    }
+    v.join("+")
+}
+
+/// The distinct batch shapes an I/O thread went through.
+pub fn batch_shapes(t: ThreadId) -> std::collections::BTreeSet<String> {
+    peek_events(t)
+        .iter()
+        .filter_map(|e| match e {
+            Ev::BatchStart(ts) if ts.len() <= 6 => Some(batch_shape(ts)),
+            Ev::BatchStart(_) => Some("7-or-more".to_string()),
+            _ => None,
+        })
+        .collect()
+}
